@@ -209,7 +209,9 @@ func runStream(t *testing.T, tape *Tape, w *World, variant string, steps int, ou
 	// nackMostly: the client keeps nacking single deliveries on the stream (each is due again at
 	// once and comes back while the stream is still busy with the nack)
 	nackMostly := !externalOnly && tape.Bool(25)
-	faultRun := externalOnly && len(clients) == 1 && tape.Bool(45)
+	// (not with acks in the opening frame: a stream that dies of the fault before it has
+	// applied them leaves "acknowledged or not" open, everything else here is explicit)
+	faultRun := externalOnly && len(clients) == 1 && len(firstAcks) == 0 && tape.Bool(45)
 	faultArmed := false
 	injected := func(err error) bool {
 		return faultRun && faultArmed && err != nil && strings.Contains(err.Error(), errInjected.Error())
